@@ -177,29 +177,52 @@ def samples_case(case, counters, viol, nontrivial):
                     except Exception as exc:  # noqa: BLE001
                         viol.append({"mech": f"C13/samples-save-load-raises/{case['cls']}", "detail": f"{cell}: {type(exc).__name__}: {str(exc)[:200]}"})
                         continue
-                    bad = []
-                    if type(r) is not type(s):
-                        bad.append(f"class {type(r).__name__}")
-                    if ns_name(r.xp) != xpn:
-                        bad.append(f"namespace {ns_name(r.xp)}")
-                    for name in ("x", "log_likelihood", "log_prior", "log_q"):
-                        if not same_arr(getattr(s, name), getattr(r, name)):
-                            a_, b_ = getattr(s, name), getattr(r, name)
-                            bad.append(f"{name} changed (dtype {None if a_ is None else to_np(a_).dtype}->{None if b_ is None else to_np(b_).dtype})")
-                    if list(r.parameters) != list(s.parameters):
-                        bad.append(f"parameters {r.parameters}")
-                    if str(r.dtype) != str(s.dtype):
-                        bad.append(f"dtype {s.dtype}->{r.dtype}")
-                    if case["cls"] == "SMCSamples":
-                        for name in ("beta", "log_evidence", "log_evidence_error"):
-                            a_, b_ = getattr(s, name), getattr(r, name)
-                            if (a_ is None) != (b_ is None) or (a_ is not None and float(to_np(a_)) != float(to_np(b_))):
-                                bad.append(f"{name} {a_}->{b_}")
-                    if case["cls"] == "Samples" and all(mask[:3]):
-                        if not same_arr(s.log_w, r.log_w) or float(to_np(s.log_evidence)) != float(to_np(r.log_evidence)):
-                            bad.append("weights/evidence changed")
+                    def compare(s, r):
+                        bad = []
+                        if type(r) is not type(s):
+                            bad.append(f"class {type(r).__name__}")
+                        if ns_name(r.xp) != xpn:
+                            bad.append(f"namespace {ns_name(r.xp)}")
+                        for name in ("x", "log_likelihood", "log_prior", "log_q"):
+                            if not same_arr(getattr(s, name), getattr(r, name)):
+                                a_, b_ = getattr(s, name), getattr(r, name)
+                                bad.append(f"{name} changed (dtype {None if a_ is None else to_np(a_).dtype}->{None if b_ is None else to_np(b_).dtype})")
+                        if list(r.parameters) != list(s.parameters):
+                            bad.append(f"parameters {r.parameters}")
+                        if str(r.dtype) != str(s.dtype):
+                            bad.append(f"dtype {s.dtype}->{r.dtype}")
+                        if case["cls"] == "SMCSamples":
+                            for name in ("beta", "log_evidence", "log_evidence_error"):
+                                a_, b_ = getattr(s, name), getattr(r, name)
+                                if (a_ is None) != (b_ is None) or (a_ is not None and float(to_np(a_)) != float(to_np(b_))):
+                                    bad.append(f"{name} {a_}->{b_}")
+                        if case["cls"] == "Samples" and all(mask[:3]):
+                            if not same_arr(s.log_w, r.log_w) or float(to_np(s.log_evidence)) != float(to_np(r.log_evidence)):
+                                bad.append("weights/evidence changed")
+                        return bad
+
+                    import copy
+
+                    snapshot = copy.deepcopy(s)
+                    bad = compare(s, r)
                     if bad:
                         viol.append({"mech": f"C13/samples-roundtrip-changed/{bad[0].split(' ')[0]}", "detail": f"{cell}: {bad}"})
+                    # writing again (the same object into another group; the reloaded object once more) and the object that
+                    # was written must all still be the same sample set
+                    try:
+                        with h5py.File(path, "a") as f:
+                            s.save(f, path="samples_again", flat=flat)
+                            r.save(f, path="second_generation", flat=flat)
+                        with h5py.File(path, "r") as f:
+                            r_again = C.load(f, path="samples_again")
+                            r_gen2 = C.load(f, path="second_generation")
+                        counters["samples_repeated_writes"] += 1
+                        for label, obj in (("same object written again", r_again), ("reloaded object written and reloaded", r_gen2), ("the written object itself after saving", s)):
+                            b2 = compare(snapshot, obj)
+                            if b2:
+                                viol.append({"mech": f"C13/samples-changed-on-repeated-write/{b2[0].split(' ')[0]}", "detail": f"{cell}: {label}: {b2}"})
+                    except Exception as exc:  # noqa: BLE001
+                        viol.append({"mech": f"C13/samples-repeated-write-raises/{case['cls']}", "detail": f"{cell}: {type(exc).__name__}: {str(exc)[:200]}"})
                     if any(mask) or dt is not None:
                         nontrivial.add(cell)
     finally:
@@ -322,6 +345,23 @@ def transforms_case(case, counters, viol, nontrivial):
                 viol.append({"mech": f"C13/transform-map-changed/{type(t).__name__}", "detail": f"{where}: max difference on probe points {dmax:.3g}"})
             if width_of(y2) != width_of(y1):
                 viol.append({"mech": "C13/transform-dtype-changed", "detail": f"{where}: output width {width_of(y1)}->{width_of(y2)}"})
+            # the same object written again, and the reloaded transform written and reloaded once more
+            try:
+                with h5py.File(path, "a") as f:
+                    t.save(f, path="again")
+                    t2.save(f, path="second_generation")
+                with h5py.File(path, "r") as f:
+                    more = [("same object written again", T.BaseTransform.load(f, path="again")), ("reloaded transform written and reloaded", T.BaseTransform.load(f, path="second_generation"))]
+                counters["transform_repeated_writes"] += 1
+                for label, tk in more + [("the written object itself after saving", t)]:
+                    yk, lk = tk.forward(arr(xs))
+                    xk, mk = tk.inverse(y1)
+                    if type(tk) is not type(t) or not all(
+                        np.array_equal(np.asarray(to_np(a), dtype=float), np.asarray(to_np(b), dtype=float), equal_nan=True) for a, b in ((y1, yk), (l1, lk), (x1, xk), (m1, mk))
+                    ):
+                        viol.append({"mech": f"C13/transform-changed-on-repeated-write/{type(t).__name__}", "detail": f"{where}: {label}"})
+            except Exception as exc:  # noqa: BLE001
+                viol.append({"mech": f"C13/transform-repeated-write-raises/{type(t).__name__}", "detail": f"{where}: {type(exc).__name__}: {str(exc)[:200]}"})
             if spec["kind"] != "identity":
                 nontrivial.add(c04.sig_of(spec, xpn, dt) + f"|{fitted}")
     finally:
